@@ -12,6 +12,7 @@ from canopen.sdo.exceptions import SdoError
 from simcan import world
 from simcan.bus import Transport
 from simcan.core import MS, SEC, US
+from simcan.models.sdo_server import crc16_xmodem
 from simcan.util import call, site
 
 ID = "C12"
@@ -35,7 +36,7 @@ COMPONENTS = {
     "real": ["canopen.sdo.client.BlockDownloadStream", "SdoClient.open/request_response/read_response/abort", "canopen.Network", "io.BufferedWriter"],
     "stub": ["CAN backend (SimBus) with fault-injecting transport", "can.Notifier", "time/queue in canopen.sdo.client", "SDO server (RefSdoServer)"],
 }
-PROBES = ["undisturbed-ok", "multi-subblock", "blksize-changed", "retransmit", "repaired", "crc-checked", "failed-visibly"]
+PROBES = ["undisturbed-ok", "multi-subblock", "blksize-changed", "retransmit", "repaired", "crc-checked", "failed-visibly", "crc-is-zero"]
 
 LENS = (1, 6, 7, 8, 13, 14, 15, 20, 21, 22, 27, 28, 29, 34, 35, 36, 50, 100, 888, 889, 890, 896, 897, 1779)
 BLK = (127, 1, 2, 3, 4, 7, "rnd")
@@ -160,6 +161,10 @@ def scenario(ctx):
         plan.late_ack = ctx.choice(3, "ackidx")
     index, sub = 0x2000 + ctx.choice(0x100, "idx"), ctx.choice(256, "sub")
     data = world.pattern(length, 1 + ctx.choice(200, "salt"))
+    if length >= 3 and ctx.choice(8, "crc0") == 0:
+        # a value whose CRC-16 is 0x0000 (any data followed by its own checksum): a checksum of zero is a checksum
+        data = data[:-2] + crc16_xmodem(data[:-2]).to_bytes(2, "big")
+        ctx.probe("crc-is-zero")
     chunk = (0, 7, 14, 70)[ctx.choice(4, "chunk")]
     buffering = (1024, 7, 4096)[ctx.choice(3, "buffering")]
     if plan.drop_ack == -1:
